@@ -773,21 +773,6 @@ theorem copyIoN_inv (g : G) (fh : Bool) (ps : List (Option Nat × Nat)) (h : Inv
   · rename_i g' new heq
     rw [heq] at h1; exact h1
 
-theorem step_inv (g : G) (op : Op) (h : Inv g) : Inv (step g op).1 := by
-  cases op with
-  | connect a bs => exact connect_inv g a bs h
-  | disconnect a bs => simp only [step]; rw [disconnectR_fst]; exact disconnect_inv g a bs h
-  | disconnectAll a => simp only [step, disconnectAllR]; rw [disconnectR_fst]; exact disconnect_inv g a _ h
-  | disconnectChans cs => simp only [step]; rw [disconnectChansR_fst]; exact disconnectChans_inv g cs h
-  | copyConns a b => exact copyConnsAuxN_inv g a _ _ h
-  | copyIo fh ps => exact copyIoN_inv g fh ps h
-
-theorem run_inv (g : G) (ops : List Op) (h : Inv g) : Inv (run g ops) := by
-  unfold run
-  induction ops generalizing g with
-  | nil => exact h
-  | cons o os ih => exact ih _ (step_inv g o h)
-
 theorem copyConnsAuxN_refused (g0 : G) (a : Nat) : ∀ (cs : List Nat) (g : G) (done : List Nat),
     Inv g → SameStatic g0 g → Logged g0 g (done.map fun b => (a, b)) →
     (copyConnsAuxN g a cs done).2 ≠ .ok → (copyConnsAuxN g a cs done).1 = g0 := by
